@@ -65,6 +65,10 @@ func c03Eval(arg string, row Row) c03Cell {
 		return un("v", func(x float64) float64 { return x + 1.5 })
 	case "o.x*2":
 		return un("o.x", func(x float64) float64 { return x * 2 })
+	case "w*3":
+		return un("w", func(x float64) float64 { return x * 3 })
+	case "w-1":
+		return un("w", func(x float64) float64 { return x - 1 })
 	case "v+w":
 		return bin("v", "w", func(x, y float64) float64 { return x + y })
 	case "v-w":
@@ -236,6 +240,18 @@ func c03MaxAbs(xs []float64) float64 {
 func c03Scalar(it *c03Item, rows []Row) c03Expect {
 	if it.Shape == "star" {
 		return c03Expect{accept: []any{float64(len(rows))}, desc: "rows"}
+	}
+	if it.Fn == "sumdiff" {
+		xa, xb := c03Usable(c03Cells(it.Arg, rows)), c03Usable(c03Cells(it.Arg2, rows))
+		if len(xa) == 0 || len(xb) == 0 {
+			// one of the sums is NULL: the statement does not say what arithmetic over a NULL aggregate gives
+			return c03Expect{accept: []any{nil}, hasRange: true, lo: -math.MaxFloat64, hi: math.MaxFloat64, desc: "a NULL sum inside an arithmetic item: unconstrained"}
+		}
+		sa := 0.0
+		for _, x := range append(append([]float64{}, xa...), xb...) {
+			sa += math.Abs(x)
+		}
+		return c03Expect{accept: []any{c03Sum(xa) - c03Sum(xb)}, scale: sa, desc: "sum(" + it.Arg + ") - sum(" + it.Arg2 + "), each argument evaluated per row"}
 	}
 	return c03ScalarCells(it, c03Cells(it.Arg, rows))
 }
